@@ -158,6 +158,7 @@ class Check:
         for part in parts:
             t = time.time()
             cap = part.time_cap or (900 if self.tier == 'quick' else getattr(part, 'thorough_cap', 5400))
+            if os.environ.get('VERIF_DEV_CAP'): cap = int(os.environ['VERIF_DEV_CAP'])       # development smoke runs only; never set by a registered command
             res = explore(part.harness(self), interp=self.I, time_cap=cap, vcap=part.vcap, verbose=bool(os.environ.get('VERIF_VERBOSE')), isolate=getattr(part, 'isolate', False),
                           classify=(lambda v, part=part: part.attribute(self, v, active_known)))
             for k, n in res.known.items(): known_hits[k] = known_hits.get(k, 0) + n
@@ -229,7 +230,7 @@ class Check:
         return self._parts
 
     def write_evidence(self, detail, paths, queries, samples, exhaustive, nviol, fn_hits, model_hits, tv, inconclusive, known_hits, solver_time=0.0, oblig=0):
-        if os.environ.get('VERIF_DEV_PARTS'): return
+        if os.environ.get('VERIF_DEV_PARTS') or os.environ.get('VERIF_DEV_CAP'): return
         os.makedirs(EVID, exist_ok=True)
         enc = sorted(fn_hits.items(), key=lambda kv: -kv[1])
         cov = {
